@@ -83,8 +83,22 @@ pub fn expected(c: Class, buf: &[u8]) -> usize {
     buf.iter().position(|b| !in_class(c, *b)).unwrap_or(buf.len())
 }
 
-/// Run one scanner; None if it does not exist in this build / on this CPU.
+/// Run one scanner; None if it does not exist in this build / on this CPU. The call runs with the
+/// cursor-operation fuel armed: a scanner that never stops panics (hook) and is reported as having
+/// stopped at usize::MAX, which no oracle accepts, instead of hanging the worker.
 pub fn run(sc: Sc, buf: &[u8]) -> Option<usize> {
+    hv::set_fuel(16 * buf.len() as u64 + 4096);
+    crate::obs::IN_MONITORED_CALL.with(|c| c.set(true));
+    let r = std::panic::catch_unwind(std::panic::AssertUnwindSafe(|| run_inner(sc, buf)));
+    crate::obs::IN_MONITORED_CALL.with(|c| c.set(false));
+    hv::set_fuel(0);
+    match r {
+        Ok(v) => v,
+        Err(_) => Some(usize::MAX),
+    }
+}
+
+fn run_inner(sc: Sc, buf: &[u8]) -> Option<usize> {
     let mut b = Bytes::new(buf);
     let ok = match sc {
         Sc::SwarUri => {
